@@ -24,4 +24,9 @@ fn main() {
 	});
 	let mut f = std::fs::File::create(out).expect("out file");
 	f.write_all(report.to_string().as_bytes()).unwrap();
+	drop(f);
+	// a first child that must still be there when the control under test arrives
+	if std::env::var_os("VERIF_HOLD").is_some() {
+		std::thread::sleep(std::time::Duration::from_secs(20));
+	}
 }
